@@ -566,6 +566,7 @@ func runC25(p *Prog, r *Report) {
 	tbl.exempt["(*fsFile).Release"] = "runs when the file has no readers left and was removed from every list: nobody else holds it"
 	checkLockset(p, r, "E8", tbl, inFS)
 	closedManagerHoldsNothing(p, r)
+	closedFlagRaisedWithTheSweep(p, r)
 	fileListedByReaderCount(p, r)
 }
 
@@ -643,4 +644,59 @@ func fileListedByReaderCount(p *Prog, r *Report) {
 		}
 	}
 	r.Floor("R-count", "appends that build lists of cached files", n, 3)
+}
+
+// closedFlagRaisedWithTheSweep (C25.R-atomic): from the moment the manager's closed flag is true, DecReadersCount
+// releases a file as soon as its last reader is gone - on the assumption that the maps no longer hold it. Raising the
+// flag and emptying the maps are therefore one critical section: from every store of true into the flag no Unlock of
+// the cache lock is reachable without the sweep that takes every file out of the maps
+// (collectAllFilesToReleaseNolock). In between, a reader that finishes releases a file the sweep then finds again
+// and releases a second time.
+func closedFlagRaisedWithTheSweep(p *Prog, r *Report) {
+	sweep := p.Func("(*inMemoryCacheManager).collectAllFilesToReleaseNolock")
+	if sweep == nil {
+		r.Undecided("R-atomic", "(*inMemoryCacheManager).collectAllFilesToReleaseNolock", "not found")
+		return
+	}
+	n := 0
+	for _, top := range p.funcsIn("") {
+		for _, fn := range funcAndClosures(top) {
+			for _, b := range fn.Blocks {
+				for _, in := range b.Instrs {
+					st, ok := in.(*ssa.Store)
+					if !ok {
+						continue
+					}
+					base, fv := fieldOfAddr(st.Addr)
+					if fv == nil || fv.Name() != "closed" || base == nil || typeNameOf(base) != "inMemoryCacheManager" {
+						continue
+					}
+					if c, isC := st.Val.(*ssa.Const); !isC || c.Value == nil || c.Value.ExactString() != "true" {
+						continue
+					}
+					n++
+					hit, path := reachAvoiding(fn, st, func(i ssa.Instruction) bool {
+						if isReturn(i) {
+							return true
+						}
+						c, ok := i.(ssa.CallInstruction)
+						if !ok {
+							return false
+						}
+						if _, isD := i.(*ssa.Defer); isD {
+							return false
+						}
+						key, op, _ := lockOp(c)
+						return op < 0 && strings.HasSuffix(key, "cacheLock")
+					}, func(i ssa.Instruction) bool {
+						c, ok := i.(ssa.CallInstruction)
+						return ok && c.Common().StaticCallee() == sweep
+					}, nil)
+					r.Check("R-atomic", funcName(fn)+": the closed flag is raised in the critical section that empties the cache maps", hit == nil, p.Pos(st.Pos()),
+						"after closed = true the cache lock is released (or the function returns) before collectAllFilesToReleaseNolock ran: a response that gives back the last reader of a still-listed file in that window releases it (closed manager), and the sweep finds the same file in the map and releases it again - the file and its pooled handles are closed twice", blocksString(p, path)...)
+				}
+			}
+		}
+	}
+	r.Floor("R-atomic", "stores raising inMemoryCacheManager.closed", n, 1)
 }
